@@ -639,4 +639,13 @@ func TestVerif_C14_mutation(t *testing.T) {
 		}
 	}
 	r.Set("mutation_histories", c.hists)
+
+	// non-vacuity (classes every shard meets from length 3 on; the full list is required across shards by checks.d need_classes)
+	if !r.R.CapHit && len(c.nviol) == 0 && c.depth >= 4 {
+		for _, k := range []string{"remove:absent:before-all-keys", "remove:absent:between-keys", "remove:absent:after-all-keys", "remove:present",
+			"remove:present:key-of-other-type", "set:overwrite:key-of-other-type", "reset:nonempty-map", "observe:Serialize", "observe:KEYS+VALUES",
+			"reload:continue-on-deserialized-copy"} {
+			r.Need(c.classes["mutation:roundtrip-ok:after:"+k] > 0, "outcome class %q never observed", "mutation:roundtrip-ok:after:"+k)
+		}
+	}
 }
